@@ -138,7 +138,7 @@ def gen_getitem(ctx):
     for n in range(1, nmax + 1):
         ych = chains_axis(n, 2)
         if n > cmax:
-            ych = r.sample(ych, min(len(ych), ctx.n(900, 6000)))
+            ych = r.sample(ych, min(len(ych), ctx.n(600, 6000)))
         w = n % nmax + 1
         xch = chains_axis(w, 2)
         area = rand_area(r, w, n)
@@ -290,7 +290,7 @@ def gen_swath(ctx):
     cases = []
     nmax = ctx.n(4, 5)
     for n in range(1, nmax + 1):
-        ych = chains_axis(n, 1) + (chains_axis(n, 2) if n <= ctx.n(2, 4) else r.sample(chains_axis(n, 2), ctx.n(600, 4000)))
+        ych = chains_axis(n, 1) + (chains_axis(n, 2) if n <= ctx.n(2, 4) else r.sample(chains_axis(n, 2), ctx.n(400, 4000)))
         m = n % nmax + 1
         xch1, xch2 = chains_axis(m, 1), chains_axis(m, 2)
         for i, yc in enumerate(ych):
